@@ -7,6 +7,7 @@ pub mod cli;
 pub mod common;
 pub mod constants;
 pub mod exact;
+pub mod fuzz;
 pub mod gen;
 pub mod gen1d;
 pub mod layout;
